@@ -8,7 +8,8 @@ OUT=seeded/MATRIX.txt
 for d in ${*:-$(ls seeded | grep -v MATRIX)}; do
   if grep -q "\"status\": \"superseded\"" seeded/$d/meta.json 2>/dev/null; then echo "$d own-check=superseded (see meta.json)" | tee -a $OUT; continue; fi
   P=$(echo $d | cut -c1-3)
-  R=$(tools/try_patch.sh seeded/$d/patch.diff $P 2>&1 | grep -E "^VIOLATION|->" | tr '\n' ' ' | cut -c1-260)
+  T=$(python3 -c "import json,sys; print(json.load(open('seeded/$d/meta.json')).get('tier','quick'))" 2>/dev/null || echo quick)
+  R=$(TIER=$T tools/try_patch.sh seeded/$d/patch.diff $P 2>&1 | grep -E "^VIOLATION|->" | tr '\n' ' ' | cut -c1-260)
   case "$R" in
     *"-> VIOLATION"*) V=caught ;;
     *) V=MISSED ;;
